@@ -206,3 +206,14 @@ PROPS['C18'] = dict(
     min_outcomes=3,
     jobs=_c18, max_report=12,
 )
+
+# ------------------------------------------------------------------------------------------------ C17
+PROPS['C17'] = dict(
+    level='exploration',
+    rule='cases = (parameter set, key seed, transport): both default sets and four small custom sets (n in {8,9}, k in {1,2}, N=1024). oracle: exact length formula from the parameters; key-switch '
+         'section = three public integers; cloud bytes strict prefix of the secret export, remainder = exactly the two key sections; LWE key / every ring key polynomial / concatenated ring key '
+         'searched at every offset in 8 encodings (>=16 bytes) + half-overlapping windows; import with generator snapshot equal, open/fopen/read/getrandom/rand unreachable; structure holds 3 pointers. every case non-trivial',
+    bounds={'quick': '6 parameter sets x 1 seed x 2 transports (80-bit default: FILE only)', 'thorough': '6 parameter sets x 3 seeds x 2 transports, spqlios-fma + fftw'},
+    assumptions=['encodings shorter than 16 bytes are not searched (chance matches); the vacuity guard requires the same search to find the keys in the secret export'],
+    jobs=lambda tier, seed: J('c17.cpp', 'optim', 'spqlios-fma', n=6, ldflags='-ldl') + (J('c17.cpp', 'debug', 'fftw', n=6, ldflags='-ldl') if tier == 'thorough' else []),
+)
